@@ -74,7 +74,13 @@ def const_int(node, consts: dict[str, ast.expr], what: str) -> int:
 
 
 def is_terminal(stmts: list[ast.stmt]) -> bool:
-    return bool(stmts) and isinstance(stmts[-1], (ast.Return, ast.Raise, ast.Continue, ast.Break))
+    """Control never falls out of the end of this block."""
+    if not stmts:
+        return False
+    last = stmts[-1]
+    if isinstance(last, (ast.Return, ast.Raise, ast.Continue, ast.Break)):
+        return True
+    return isinstance(last, ast.If) and is_terminal(last.body) and is_terminal(last.orelse)
 
 
 def norm_block(stmts: list[ast.stmt]) -> list[ast.stmt]:
